@@ -271,6 +271,9 @@ func execFmtCase(c *Sx, env *execEnv) (*Sx, []Violation) {
 			stdout, cerr := cli.VerifRun(cargs)
 			if (cerr != nil) != (l1.err != nil) {
 				rep("C18", "cli-error-differs", fmt.Sprintf("format %s: library error %v, command error %v", f, l1.err, cerr))
+				if focus != "" && l1.err == nil {
+					rep("C16", "focused-command-fails-where-library-reports", fmt.Sprintf("format %s focus=%q: the library returns a (possibly empty) report, the command fails: %v", f, focus, cerr))
+				}
 			} else if l1.err == nil {
 				if stdout != l1.out {
 					rep("C18", "cli-stdout-differs", fmt.Sprintf("format %s exposure=%v focus=%q: stdout (%d bytes) is not the library string (%d bytes)", f, exposure, focus, len(stdout), len(l1.out)))
@@ -281,6 +284,25 @@ func execFmtCase(c *Sx, env *execEnv) (*Sx, []Violation) {
 				}
 			}
 			_ = os.Remove(file)
+			// verbosity is about the log (stderr), never about the report: the same bytes on stdout with -v
+			if l1.err == nil && fi%2 == 0 {
+				vargs := append([]string{}, cargs...)
+				qargs := append([]string{}, cargs...)
+				for i := range vargs {
+					if vargs[i] == "-q" {
+						vargs[i], qargs[i] = "-q=false", "-q=true"
+					}
+					if vargs[i] == "-f" && i+1 < len(vargs) {
+						vargs[i+1], qargs[i+1] = "", ""
+					}
+				}
+				vargs, qargs = append(vargs, "-v=true"), append(qargs, "-v=false")
+				if vout, verr := cli.VerifRun(vargs); verr != nil || vout != l1.out {
+					rep("C18", "cli-stdout-differs-with-verbose", fmt.Sprintf("format %s exposure=%v focus=%q: with -v stdout (%d bytes, error %v) is not the library string (%d bytes)", f, exposure, focus, len(vout), verr, len(l1.out)))
+				}
+				// the flag variables persist between in-process runs: back to quiet
+				_, _ = cli.VerifRun(qargs)
+			}
 			// the real binary: exit status (first format only, it costs a process)
 			if realBinary != "" && fi == 0 {
 				cmd := exec.Command(realBinary, cargs...)
@@ -547,7 +569,16 @@ func genFmtCase(r *Rng, id int, tier string) *Sx {
 	if r.P(30) {
 		for _, o := range w.Objs {
 			if o.Kind == "wl" {
-				c.Add(Ls(At("focus"), At(o.Wl.Name)))
+				switch k := r.Intn(10); {
+				case k < 6:
+					c.Add(Ls(At("focus"), At(o.Wl.Name)))
+				case k < 7:
+					c.Add(Ls(At("focus"), At("nosuch"))) // names nothing: an empty report (and a warning), never an error
+				case k < 9:
+					c.Add(Ls(At("focus"), At(o.Wl.NS+"/"+o.Wl.Name)))
+				default:
+					c.Add(Ls(At("focus"), At(o.Wl.Name+"x")))
+				}
 				break
 			}
 		}
